@@ -142,6 +142,8 @@ func shapeAfter(dt, prog string, idx int) (sh []int, ok bool) {
 // properties' quantifiers; returns the prefix and the index of the source tensor.
 var layouts = []string{"rm", "cm", "cmb", "T", "slice", "stepslice", "mat"}
 
+// cloneview: a Clone() of a strided view (keeps the strides and the whole window, is not a view)
+
 func source(r *rng, layout string, sh []int, base int) (string, int) {
 	s := fints(sh)
 	switch layout {
@@ -188,6 +190,9 @@ func source(r *rng, layout string, sh []int, base int) (string, int) {
 			}
 		}
 		return fmt.Sprintf("new:rm:%s:%d;slice:0:%s", fints(big), base, strings.Join(parts, "/")), 1
+	case "cloneview":
+		p, i := source(r, "stepslice", sh, base)
+		return p + fmt.Sprintf(";clone:%d", i), i + 1
 	case "mat": // materialised from a transposed tensor
 		p, i := source(r, "T", sh, base)
 		q := p + fmt.Sprintf(";mat:%d", i)
